@@ -291,5 +291,27 @@ fn main() {
         if !thorough && nfix > 400 { break; }
     }
     let _ = Message::from_bytes(&b""[..]);
+
+    // v2 / v3 key packets written by hand: every RSA algorithm octet (1 RSA, 2 encrypt-only, 3 sign-only), several moduli
+    // (the fingerprint is MD5 over the MPI bodies of n and e, the key id the low 64 bits of n, whatever the octet says)
+    let mut hrng = Rng::new(cli.seed ^ 0x13c);
+    for ver in [3u8, 2] {
+        for alg in [1u8, 2, 3] {
+            for (nbits, e) in [(1024usize, vec![1u8, 0, 1]), (1023, vec![17]), (2048, vec![1, 0, 1]), (1030, vec![3])] {
+                let mut n = hrng.bytes(nbits.div_ceil(8));
+                let top = (nbits - 1) % 8; n[0] &= (1u16 << (top + 1)).wrapping_sub(1) as u8; n[0] |= 1 << top; *n.last_mut().unwrap() |= 1;
+                let ebits = e.len() * 8 - e[0].leading_zeros() as usize;
+                let mut body = vec![ver, 0x3b, 0x9a, 0xca, 0x00, 0, 0, alg];
+                body.extend((nbits as u16).to_be_bytes()); body.extend_from_slice(&n);
+                body.extend((ebits as u16).to_be_bytes()); body.extend_from_slice(&e);
+                let mut pkt = vec![0x99u8]; pkt.extend((body.len() as u16).to_be_bytes()); pkt.extend_from_slice(&body);
+                let parsed = guarded(|| match pgp::packet::PacketParser::new(&pkt[..]).next() { Some(Ok(pgp::packet::Packet::PublicKey(k))) => Some(k), _ => None }).ok().flatten();
+                match parsed {
+                    Some(k) => cx.key(&k, Some(&body), &format!("handmade-v{ver}-alg{alg}")),
+                    None => cx.out.case("", &[], &["handmade-v3".into(), hx(&pkt)], "not accepted", Some(true), &format!("handmade-v{ver}-alg{alg}-not-accepted")),
+                }
+            }
+        }
+    }
     cx.out.finish();
 }
